@@ -302,9 +302,10 @@ def propagate_drift(ctx):
     cases = [("adaptive", 8), ("adaptive", 5), ("fixed", 8), ("fixed", 6), ("fixed", 4)]
     if not ctx.thorough():
         cases = [("adaptive", 8), ("fixed", 8), ("fixed", 4)]
-    s0 = np.array([0.82, 0.05, 0.1, 0.02, 0.15, 0.07])
     worst = {}
     for mi, mu in enumerate((0.0121505856, 0.3)):
+        # spatial states well away from both primaries for the respective mass parameter
+        s0 = np.array([0.82, 0.05, 0.1, 0.02, 0.15, 0.07]) if mi == 0 else np.array([-0.6, 0.45, 0.1, 0.05, -0.2, 0.07])
         sysm = rtbp.rtbp_dynsys(mu)
         varm = rtbp.variational_dynsys(mu)
         for meth, order in (cases if mi == 0 else cases[:1]):
